@@ -191,14 +191,21 @@ func subLong() mon.Sub {
 				u := wsutil.NewUTF8Reader(xport.NewChunker(data, plan))
 				p := make([]byte, b)
 				got := false
-				for {
-					_, e := u.Read(p)
-					if e == io.EOF {
+				if k == 3 {
+					// the consumer drains through io.Copy (any io.WriterTo fast path of the reader included)
+					if _, e := io.Copy(io.Discard, u); e == nil {
 						got = u.Valid()
-						break
 					}
-					if e != nil {
-						break
+				} else {
+					for {
+						_, e := u.Read(p)
+						if e == io.EOF {
+							got = u.Valid()
+							break
+						}
+						if e != nil {
+							break
+						}
 					}
 				}
 				if got != want {
